@@ -48,3 +48,70 @@ def expr_cases(ctx, n_struct, n_near, n_soup, n_char, n_quoted, funcs=True):
     for _ in range(n_quoted):
         out.append(("quoted", G.quoted_soup(rng)))
     return out
+
+
+class ParseRec:
+    __slots__ = ("kind", "expr", "impl", "model", "impl_ok", "model_ok", "impl_ast", "model_ast", "dev", "t1", "par", "resp",
+                 "impl_err", "model_err")
+
+
+def kv_fields(parts):
+    d = {}
+    for p in parts:
+        if "=" in p:
+            k, v = p.split("=", 1)
+            d[k] = v
+    return d
+
+
+def parse_run(ctx, cases):
+    """cases: [(kind, expr)] → [ParseRec]; both executors on every expression"""
+    lines = [C.hexs(e) for _, e in cases]
+    impl, model = run_both(ctx, "parse", lines)
+    recs = []
+    for (kind, e), i, m in zip(cases, impl, model):
+        r = ParseRec()
+        r.kind, r.expr, r.impl, r.model = kind, e, i or "NONE", m or "NONE"
+        r.impl_ok = r.impl.startswith("ok ")
+        r.impl_err = r.impl.startswith("E parse")
+        mf = r.model.split("\t")
+        r.model_ok = mf[0].startswith("ok ")
+        r.model_err = mf[0].startswith("E parse")
+        r.impl_ast = strip_offsets(r.impl[3:]) if r.impl_ok else None
+        r.model_ast = strip_offsets(mf[0][3:]) if r.model_ok else None
+        f = kv_fields(mf[1:])
+        r.t1 = f.get("t1")
+        r.dev = tuple(int(x) for x in f["dev"].split(",")) if "dev" in f else (0, 0, 0, 0)
+        r.par = C.unhexs(f["par"]) if "par" in f else None
+        r.resp = C.unhexs(f["resp"]) if "resp" in f else None
+        recs.append(r)
+    return recs
+
+
+def impl_parse(ctx, exprs):
+    """implementation only: offset-free AST or None per expression"""
+    out = C.run_parallel([ctx.harness, "parse"], [C.hexs(e) for e in exprs])
+    return [strip_offsets(o[3:]) if o and o.startswith("ok ") else None for o in out]
+
+
+def load_corpus(prop):
+    """corpus/<prop>/*.txt : one case per line ('#' comments); expressions are stored as plain text lines
+    prefixed by 'expr\\t' or as raw stream lines"""
+    import os
+    d = os.path.join(C.CORPUS, prop)
+    out = []
+    if os.path.isdir(d):
+        for f in sorted(os.listdir(d)):
+            for l in open(os.path.join(d, f), encoding="utf-8"):
+                l = l.rstrip("\n")
+                if l and not l.startswith("#"):
+                    out.append(l)
+    return out
+
+
+def corpus_expr(line):
+    if line.startswith("expr\t"):
+        return line[5:]
+    if line.startswith("hex\t"):
+        return C.unhexs(line[4:])
+    return line
